@@ -160,3 +160,62 @@ def outcome_implies(test, outcome, pred):
 def every_path_requires(paths, pred):
     """on every path some passed test forces pred"""
     return bool(paths) and all(any(outcome_implies(t, o, pred) for t, o in conds) for conds in paths)
+
+
+def returns_on_paths(g, limit=5000):
+    """[(conditions, returned expression)] for every acyclic path from the entry to a `return`: the expression is the return
+    value with the local names that were bound by plain assignments on that path replaced by what they were bound to
+    (`x = E` and same-length tuple assignments; anything else that binds a name leaves it symbolic).  So `fmt = '%H'; ...;
+    return fmt, microsec` and `return '%H', 4` give the same expression."""
+    def clone(e):
+        return ast.parse(ast.unparse(e), mode='eval').body
+
+    def subst(e, env):
+        class S(ast.NodeTransformer):
+            def visit_Name(self, n):
+                if isinstance(n.ctx, ast.Load) and n.id in env and env[n.id] is not None:
+                    return clone(env[n.id])
+                return n
+        return S().visit(clone(e))
+    out = []
+    stack = [(ENTRY, [], {ENTRY}, {})]
+    steps = 0
+    while stack:
+        node, conds, seen, env = stack.pop()
+        steps += 1
+        if steps > limit:
+            raise Unknown('too many paths')
+        nd = g.nodes.get(node)
+        a = getattr(nd, 'ast', None) if nd is not None else None
+        if nd is not None and nd.kind != 'test' and isinstance(a, ast.Return):
+            out.append((conds, subst(a.value, env) if a.value is not None else None))
+            continue
+        if nd is not None and nd.kind != 'test' and isinstance(a, ast.Assign) and len(a.targets) == 1:
+            t = a.targets[0]
+            env = dict(env)
+            if isinstance(t, ast.Name):
+                env[t.id] = subst(a.value, env)
+            elif isinstance(t, ast.Tuple) and isinstance(a.value, ast.Tuple) and len(t.elts) == len(a.value.elts) and \
+                    all(isinstance(x, ast.Name) for x in t.elts):
+                vals = [subst(v, env) for v in a.value.elts]
+                for x, v in zip(t.elts, vals):
+                    env[x.id] = v
+            else:
+                for x in ast.walk(t):
+                    if isinstance(x, ast.Name):
+                        env[x.id] = None
+        elif nd is not None and nd.kind != 'test' and isinstance(a, (ast.AugAssign, ast.For, ast.With)):
+            env = dict(env)
+            for x in ast.walk(getattr(a, 'target', a)):
+                if isinstance(x, ast.Name) and isinstance(x.ctx, ast.Store):
+                    env[x.id] = None
+        for d, lab in g.succ[node]:
+            if d in seen:
+                continue
+            if lab == 'exc' and getattr(g.nodes.get(d), 'kind', '') != 'handler':
+                continue
+            c2 = conds
+            if nd is not None and nd.kind == 'test' and lab in ('true', 'false'):
+                c2 = conds + [(nd.ast, lab == 'true')]
+            stack.append((d, c2, seen | {d}, env))
+    return out
